@@ -113,6 +113,50 @@ func nearMisses(run *vk.Run, w *world.World, pt []byte) {
 		mustNotOpen(run, file, wrong, "passphrase-"+strings.SplitN(name, "@", 2)[0], fmt.Sprintf("passphrase variant %q (%s) against a file for %q", v, name, base))
 		run.Distinct("pw:" + name)
 	}
+	// a passphrase of the shape the command line suggests (ten list words joined by hyphens): retyped with capitals,
+	// with blanks for hyphens, or in title case it is another passphrase
+	gen := "mixture-spatial-bar-walnut-olive-grape-moon-river-stone-cloud"
+	gv := map[string]string{
+		"gen-capital-first": "M" + gen[1:],
+		"gen-capital-word":  strings.Replace(gen, "-walnut-", "-Walnut-", 1),
+		"gen-upper":         strings.ToUpper(gen),
+		"gen-spaces":        strings.ReplaceAll(gen, "-", " "),
+		"gen-one-space":     strings.Replace(gen, "-", " ", 1),
+		"gen-title-spaces":  strings.ReplaceAll(strings.Title(strings.ReplaceAll(gen, "-", " ")), " ", " "),
+		"gen-nine-words":    gen[:strings.LastIndex(gen, "-")],
+		"gen-underscores":   strings.ReplaceAll(gen, "-", "_"),
+	}
+	gr, _ := age.NewScryptRecipient(gen)
+	gr.SetWorkFactor(3)
+	gfile, err := encryptTo(gr, msg)
+	if err != nil {
+		vk.Infra("%v", err)
+	}
+	for name, v := range gv {
+		wrong, _ := age.NewScryptIdentity(v)
+		mustNotOpen(run, gfile, wrong, "passphrase-"+name, fmt.Sprintf("passphrase %q against a file for %q", v, gen))
+		run.Distinct("pw:" + name)
+	}
+	// the same identity value listed more than once is tried, and accounted for, each time
+	a, b := w.XIdentity("x2"), w.XIdentity("x1")
+	other, _ := age.GenerateX25519Identity()
+	ofile, err := encryptTo(other.Recipient(), msg)
+	if err != nil {
+		vk.Infra("%v", err)
+	}
+	pwid, _ := age.NewScryptIdentity("some passphrase")
+	for li, list := range [][]age.Identity{{a, a}, {a, b, a}, {pwid, a, pwid}, {b, b, b}} {
+		_, derr := age.Decrypt(bytes.NewReader(ofile), list...)
+		run.Eval(1)
+		var nm *age.NoIdentityMatchError
+		sig := fmt.Sprintf("repeated-identity-values:%d", li)
+		if !errors.As(derr, &nm) {
+			run.Violation("C04:not-the-no-match-error:"+sig, fmt.Sprintf("a list repeating identity values: error is %T: %v", derr, derr), nil)
+		} else if len(nm.Errors) != len(list) {
+			run.Violation("C04:no-match-causes:"+sig, fmt.Sprintf("%d causes collected for a list of %d identities in which a value is repeated", len(nm.Errors), len(list)), nil)
+		}
+		run.Distinct(sig)
+	}
 	// the other direction: the file's passphrase carries the extra character, the identity's does not
 	for _, name := range []string{"trailing-lf", "trailing-cr", "trailing-space", "trailing-tab"} {
 		r2, _ := age.NewScryptRecipient(variants[name])
